@@ -257,7 +257,10 @@ func (p *Parent) runStage(s Stage, bin string) {
 		p.violations = append(p.violations, r.Violations...)
 		switch {
 		case r.TimedOut:
-			if s.TimeoutIsViolation {
+			if s.TimeoutIsViolation && s.DeadlockOnly && !dumpShowsDeadlock(filepath.Join(p.workDir(), s.Name, fmt.Sprintf("b%03d", r.Batch), "log")) {
+				p.inconclusive++
+				p.inconclWhy["watchdog fired in stage "+s.Name+" with goroutines still at work (not a deadlock)"]++
+			} else if s.TimeoutIsViolation {
 				p.violations = append(p.violations, Violation{Property: id, Kind: "hang", Sig: "hang " + firstLine(r.LastCase),
 					Detail: "watchdog fired; goroutine dump:\n" + r.LogTail, Input: r.LastCase, Stage: s.Name, Batch: r.Batch})
 			} else {
@@ -279,6 +282,33 @@ func (p *Parent) runStage(s Stage, bin string) {
 		}
 	}
 	fmt.Printf("[%s] stage %-18s %d batches, %d evaluations, %d non-trivial, %.1fs\n", id, s.Name, s.NBatches, ev, nt, time.Since(t0).Seconds())
+}
+
+var goroutineStateRE = regexp.MustCompile(`(?m)^goroutine \d+ (?:gp=\S+ m=\S+ (?:mp=\S+ )?)?\[([a-zA-Z ]+)`)
+
+// dumpShowsDeadlock reads the SIGQUIT goroutine dump in a child's log: true
+// when there is a dump and no goroutine in it is running or runnable.
+func dumpShowsDeadlock(path string) bool {
+	b, err := os.ReadFile(path)
+	if err != nil {
+		return false
+	}
+	if i := bytes.Index(b, []byte("SIGQUIT")); i >= 0 {
+		b = b[i:]
+	} else {
+		return false
+	}
+	ms := goroutineStateRE.FindAllSubmatch(b, -1)
+	if len(ms) == 0 {
+		return false
+	}
+	for _, m := range ms {
+		st := string(m[1])
+		if strings.HasPrefix(st, "running") || strings.HasPrefix(st, "runnable") || strings.HasPrefix(st, "syscall") {
+			return false
+		}
+	}
+	return true
 }
 
 func firstLine(s string) string {
